@@ -7,4 +7,5 @@ def run(ctx):
                 "REAL manager; datastore bytes of every existing channel compared before/after; C05.* judged by TLC; non-trivial = message or role-restricted API step")
     ctx.assumptions += ["the authenticated sender is what the network/transport adapters pass in (checked by C15/C16)"]
     stages.mgr_family(ctx, ["C05."], ["c05"], lambda s: s["stim"]["kind"].startswith("Recv") or s["stim"]["kind"].startswith("On") or s["stim"]["kind"] in ("SendVoucher", "SendVoucherResult", "UpdateValidation"),
-                      quick_n=4000, invariants=["M_C05_Entitled", "M_C02_Final"])
+                      quick_n=4000, invariants=["M_C05_Entitled", "M_C02_Final"],
+                      keep=lambda l: '"kind":"Restart"' in l and '"from":"B"' in l and ('"v3"' in l or '"v0"' in l) and '"status":"Ongoing"' in l)
